@@ -578,6 +578,8 @@ def run(ctx):
     ctx.analysed["engine"] = tu.meta
     from .. import argorder
     argorder.rule(ctx, "C11.ARGS", py_modules=(), cx=True)
+    from .. import lints
+    lints.unused(ctx, "C11.PARAMS", ctx.py, (), ctx.cx)
     ctx.assume("int overflow of extent products for huge systems and IEEE division by zero are not decided")
     ctx.assume("the engine is driven through LibRDEngine (lifecycle-respecting call sequences); buffers handed to the "
                "getter exports are sized from engineexport_get_nsamples fetched immediately before")
